@@ -133,6 +133,8 @@ type VC struct {
 	srcOrd     map[*ssa.CallCommon]int // ordinal of a static call among the calls of the same callee, in source order
 	defined    map[string]bool // names introduced by define-fun (macros, not constants)
 	patAlias   map[string]string
+	allocSeq   map[*ssa.Alloc]int
+	allocCount int
 }
 
 type loopInfo struct {
@@ -155,7 +157,7 @@ func newVC(w *World, cs *Contracts, ms *ModSets, fn *ssa.Function, spec *FuncSpe
 		notes: map[string]bool{}, unsupp: map[string]bool{}, assumedUse: map[string]bool{},
 		callOrd: map[string]int{}, panicOrd: map[string]int{}, sumDefs: map[string]bool{},
 		closures: map[ssa.Value]*ssa.MakeClosure{}, edgeReach: map[[2]int]string{},
-		compType: map[string]types.Type{}, epochTop: map[int]string{}, siteHits: map[*SiteSpec]int{}, defined: map[string]bool{}, patAlias: map[string]string{}}
+		compType: map[string]types.Type{}, epochTop: map[int]string{}, siteHits: map[*SiteSpec]int{}, defined: map[string]bool{}, patAlias: map[string]string{}, allocSeq: map[*ssa.Alloc]int{}}
 	vc.prelude()
 	return vc
 }
